@@ -31,12 +31,15 @@ LEVEL_TEXT = (
     "each overlapped block has the declared size (guard shown necessary); for every function whose output at a cell "
     "depends on at most dl cells before and dr after it, map-over-overlapped-blocks-then-trim equals the function "
     "on the whole axis (map_overlap_eq_global, boundary 'none') and, for a boundary other than 'none', equals "
-    "pad – apply – trim on the whole axis for ANY pad cells (map_overlap_boundary_eq_global); sliding_window_view "
+    "pad – apply – trim on the whole axis for ANY pad cells (map_overlap_boundary_eq_global); the pads themselves: the "
+    "Python slices periodic / reflect / nearest cut (incl. reflect's depth == 1 special case) are, for every 1 <= d <= n, "
+    "the closed-form wrap / mirror / edge index maps (boundary_slices_are_index_maps), which coincide cell by cell with "
+    "the index maps of np.pad wrap / symmetric / edge / constant (boundary_index_maps_eq_np_pad); sliding_window_view "
     "over the right-overlapped blocks concatenates to NumPy's windows of the whole axis "
     "(sliding_window_view_eq_global, guard shown necessary); ensure_minimum_chunksize keeps the total, makes every "
-    "chunk >= size and raises only when the axis is shorter than size. Validated, not proved: WHICH cells periodic / "
-    "reflect / nearest / constant put into the pads (index maps diffed cell by cell against boundaries() and np.pad), "
-    "rechunking (C23), the N-d product, map_overlap's argument handling (several arrays, drop_axis/new_axis, trim=False)."
+    "chunk >= size and raises only when the axis is shorter than size. Validated, not proved: that boundaries() / "
+    "np.pad compute these index maps (diffed cell by cell), the N-d product (axes padded one after the other), "
+    "rechunking (C23), map_overlap's argument handling (several arrays, drop_axis/new_axis, trim=False)."
 )
 LEVEL_NOTE = (
     "Trusted: Lean kernel; the hand-written model ArrOverlap (diffed on every run against the real helpers and against "
